@@ -13,10 +13,10 @@ Matches(o) == /\ size = o.size /\ limit = o.limit /\ head = o.head
 
 TInit == Init /\ l = 2
 Reset == /\ l <= Len(Trace) /\ Trace[l].t = "init"
-         /\ size' = PageOf(IF InitSlots = 0 THEN 1 ELSE InitSlots) /\ limit' = InitSlots
-         /\ head' = [b \in Buckets |-> 0]
-         /\ rec' = [s \in 1..MaxSlots |-> IF s <= InitSlots THEN [name |-> "filler", len |-> TRUE, next |-> 0, val |-> 1] ELSE NoRec]
-         /\ alive' = [p \in Procs |-> TRUE] /\ maplen' = [p \in Procs |-> PageOf(IF InitSlots = 0 THEN 1 ELSE InitSlots)]
+         /\ size' = Size0 /\ limit' = Limit0
+         /\ head' = Head0
+         /\ rec' = Rec0
+         /\ alive' = [p \in Procs |-> TRUE] /\ maplen' = [p \in Procs |-> Size0]
          /\ pc' = [p \in Procs |-> "P_start"] /\ ph' = [p \in Procs |-> 0] /\ rm' = [p \in Procs |-> FALSE]
          /\ lhead' = [p \in Procs |-> 0] /\ off' = [p \in Procs |-> 0] /\ lim' = [p \in Procs |-> 0]
          /\ start' = [p \in Procs |-> 0] /\ tries' = [p \in Procs |-> 0] /\ old' = [p \in Procs |-> 0]
